@@ -5,6 +5,7 @@ Granularity: one spawned job / one scheduler signal / one client action / one ti
 Which enabled job runs next is a decision of the current path (explored exhaustively or by a stated
 policy)."""
 import re
+import os
 import z3
 
 from .values import *
@@ -494,19 +495,53 @@ class World:
             self.panics.append((where, e.msg))
             return None
 
+    def scheduler_task_arm(self):
+        """The calls the Signal::Task arm of the real Scheduler::next makes, read from its MIR (the async state machine itself is not executed):
+        names of the repo functions called, in block order.  Used to transcribe the arm: does it take a lock before Task::exec?"""
+        if getattr(self, "_sched_arm", None) is not None:
+            return self._sched_arm
+        calls = []
+        for name, it in self.I.p.items.items():
+            if "scheduler::scheduler" in name and name.endswith("::next::{closure#0}"):
+                for bb in sorted(it.blocks):
+                    for st in it.blocks[bb].stmts():
+                        if st[0] == "call" and st[2][0] == "fn":
+                            calls.append(st[2][1])
+        self._sched_arm = calls
+        return calls
+
     def scheduler_next(self, sig):
-        """Body of Scheduler::next for one received signal (the async shell is tokio's)."""
+        """Body of Scheduler::next for one received signal (the async shell is tokio's; the Signal::Task arm is transcribed from the source:
+        [take the lock the arm takes, if any,] create_context, exec, and on Err set_err + emit_error)."""
         I = self.I
         if sig.vn != "Task":
             return
         task = sig.f[0]
-        ctx = I.call_raw(T + "::create_context", [Ptr([task], 0)], None)
-        r = I.call_raw(T + "::exec", [Ptr([task], 0), Ptr([ctx], 0)], None)
-        if r.d == 1:
-            # the unwrap_or_else closure of Scheduler::next: set_err + emit_error
-            e = I.call_raw("<error::ActError as std::convert::Into<error::Error>>::into", [r.f[0]], None)
-            I.call_raw(T + "::set_err", [Ptr(task.c, 0), Ptr([e], 0)], None)
-            I.call_raw("scheduler::context::Context::emit_error", [Ptr([ctx], 0)], None)
+        arm = self.scheduler_task_arm()
+        exec_at = next((i for i, c in enumerate(arm) if c.endswith("Task::exec")), None)
+        if exec_at is None:
+            raise Unsupported("Scheduler::next no longer calls Task::exec: the transcription of its Signal::Task arm is out of date")
+        guards = []
+        for c in arm[:exec_at]:
+            if c.endswith("Process::lock_actions"):
+                proc = deref_all(I.call_raw(T + "::proc", [Ptr(task.c, 0)], None))   # &Task -> &Arc<Process> -> the Process
+                if not (isinstance(proc, Agg) and str(getattr(proc, "ty", "")).endswith("Process")):
+                    raise Unsupported("scheduler arm: Task::proc did not yield the process")
+                guards.append(I.call_raw("scheduler::process::process::Process::lock_actions", [Ptr([proc], 0)], None))
+            elif "::lock" in c and "Mutex" in c:
+                raise Unsupported("Scheduler::next takes a lock the transcription does not know: " + c)
+        try:
+            ctx = I.call_raw(T + "::create_context", [Ptr([task], 0)], None)
+            r = I.call_raw(T + "::exec", [Ptr([task], 0), Ptr([ctx], 0)], None)
+            if r.d == 1:
+                # the unwrap_or_else closure of Scheduler::next: set_err + emit_error
+                e = I.call_raw("<error::ActError as std::convert::Into<error::Error>>::into", [r.f[0]], None)
+                I.call_raw(T + "::set_err", [Ptr(task.c, 0), Ptr([e], 0)], None)
+                I.call_raw("scheduler::context::Context::emit_error", [Ptr([ctx], 0)], None)
+        finally:
+            if I.race is not None:
+                for g in guards:
+                    I.race.dropped(g)
 
     def drain(self, max_steps=400):
         """Run enabled work until nothing is enabled (quiescence)."""
